@@ -33,6 +33,10 @@ FLAVOURS = {
     "oo_ci": ((False, False, False), (False, False, False)),
     "po_ci": ((True, False, False), (False, False, True)),
     "pp_ci": ((True, False, False), (True, False, False)),
+    # mixed case rules: side 0 case-sensitive, side 1 not (and the reverse)
+    "oo_mix": ((False, True, False), (False, False, False)),
+    "po_mix": ((True, True, False), (False, False, True)),
+    "oo_xim": ((False, False, False), (False, True, False)),
 }
 
 
@@ -294,8 +298,8 @@ def _engine_events(p, side, ctl, orig):
 
 # ---------------------------------------------------------------------------------- trees
 def read_tree(prov, root):
-    """relpath -> ('d', None) | ('f', bytes), read only through the public Provider API."""
-    info = prov.info_path(root)
+    """relpath -> ('d', None) | ('f', bytes), read only through the public Provider API.  root '' = the whole account."""
+    info = prov.info_path(root or "/")
     if not info:
         return None
     out = {}
@@ -569,6 +573,24 @@ class World:
         self.ctl.engine = False
         try:
             return self._as_user(p, lambda: user_op(p, root, op, a))
+        finally:
+            self.ctl.engine = was
+
+    def user_abs(self, side, op, *a):
+        """a user operation addressed by absolute account paths (may lie outside the sync root)"""
+        p = self.provs[side]
+        was = self.ctl.engine
+        self.ctl.engine = False
+        try:
+            return self._as_user(p, lambda: user_op(p, "", op, a))
+        finally:
+            self.ctl.engine = was
+
+    def account_tree(self, side):
+        was = self.ctl.engine
+        self.ctl.engine = False
+        try:
+            return self._as_user(self.provs[side], lambda: read_tree(self.provs[side], ""))
         finally:
             self.ctl.engine = was
 
